@@ -926,8 +926,11 @@ class TestResult(unittest.TestResult):
                 return self.buffer.getvalue().decode(
                     encoding=self.encoding, errors=self.errors)
 
+        # Tests may write arbitrary bytes through ``buffer``; reading the
+        # captured output back must not fail on them.
         return BufferedStandardStream(
-            io.BytesIO(), newline='\n', write_through=True)
+            io.BytesIO(), newline='\n', write_through=True,
+            errors='backslashreplace')
 
     def _setUpStdStreams(self):
         """Set up buffered standard streams, if requested."""
